@@ -233,6 +233,44 @@ LazyWhy(ops, tab, law, gen, O) ==
               ELSE IF (O[i].c = <<>>) # (E[i].c = <<>>) THEN "lazy:element-kind"
               ELSE "lazy:value"
 
+(* ------------------------------ functions: the call shape ------------------------------------------
+   (f op g)(call) = f(call) op g(call) for EVERY way of calling the composed function.  A call is
+   [pos |-> values given positionally, kw |-> <<[n |-> name, v |-> value], ...>>]; an operand function with
+   parameter names sig (all with defaults) binds the positional values to its first parameters and, of the
+   keywords, only those it has - a function never sees a keyword it does not declare, and every operand of a
+   composite, at any depth, is called with the same call.  Values are identified by integers.
+   The kernel (or, for composites of composites, the numeric expression) is a table over every tuple of calls,
+   one per base function, first fastest; the law picks the diagonal.                                   *)
+Binding(sig, c) ==
+    {<<sig[i], c.pos[i]>> : i \in 1..Min2(Len(sig), Len(c.pos))}
+    \cup {<<c.kw[j].n, c.kw[j].v>> : j \in {i \in 1..Len(c.kw) : \E q \in 1..Len(sig) : sig[q] = c.kw[i].n}}
+\* a call is well formed for a function when no parameter is bound twice
+CallValid(sig, c) ==
+    /\ \A i, j \in 1..Len(c.kw) : i # j => c.kw[i].n # c.kw[j].n
+    /\ \A i \in 1..Min2(Len(sig), Len(c.pos)) : \A j \in 1..Len(c.kw) : c.kw[j].n # sig[i]
+CallShape(sigs, c) ==
+    LET known == UNION {{sigs[k][i] : i \in 1..Len(sigs[k])} : k \in 1..Len(sigs)}
+        extra == \E j \in 1..Len(c.kw) : c.kw[j].n \notin known IN
+    IF extra THEN "extra"
+    ELSE IF Len(c.pos) = 0 /\ Len(c.kw) = 0 THEN "none"
+    ELSE IF Len(c.kw) = 0 THEN "pos" ELSE IF Len(c.pos) = 0 THEN "kw" ELSE "mixed"
+Diag(c, nb) == [k \in 1..nb |-> c]
+\* leaves[k][c]: base function k evaluated alone with call c; O[c]: the composed function called with call c
+CallWhy(sigs, calls, leaves, tab, O) ==
+    LET nb == Len(sigs)
+        nc == Len(calls)
+        d == [k \in 1..nb |-> nc] IN
+    IF \E k \in 1..nb, c \in 1..nc : ~CallValid(sigs[k], calls[c]) THEN "call:ill-formed-case"
+    ELSE IF Len(tab) # Prod(d, 1) \/ Len(O) # nc THEN "call:bad-table"
+    \* a function's value depends only on what the call binds of its own parameters
+    ELSE IF \E k \in 1..nb, c1, c2 \in 1..nc :
+               Binding(sigs[k], calls[c1]) = Binding(sigs[k], calls[c2]) /\ ~ValEq(leaves[k][c1], leaves[k][c2])
+         THEN "call:operand-sees-foreign-arguments"
+    ELSE LET bad == {c \in 1..nc : ~ValEq(O[c], tab[Flat(Diag(c, nb), d)])} IN
+         IF bad = {} THEN "ok"
+         ELSE LET c == CHOOSE x \in bad : \A y \in bad : x <= y IN
+              "call:" \o CallShape(sigs, calls[c]) \o (IF O[c].x = 1 /\ tab[Flat(Diag(c, nb), d)].x # 1 THEN ":raised:" \o O[c].s ELSE ":value")
+
 (* ------------------------------ kernel laws (units of 1/8) ------------------------------ *)
 \* reference kernels (integer arithmetic; x, lo, hi, q, m in lattice units)
 RefMod(a, m) == a % m                                   \* TLA+ % is the non-negative remainder for m > 0
@@ -397,11 +435,32 @@ PickLazy == /\ phase = "start"
             /\ \E m \in 1..3 : \E v \in [1..m -> LazyOpt] : \E sh \in Shares(v), lm \in LawModes, xv \in BOOLEAN :
                  /\ LazyDefined(WithSid(v, sh))
                  /\ args' = <<WithSid(v, sh), lm[1], lm[2], xv>> /\ phase' = "lazy" /\ UNCHANGED <<ca, cb, ka, kb>>
+\* call shapes: parameter lists of the base functions, a pool of calls, the way the composite is built
+SigPool == {<<"p0">>, <<"p0", "a">>, <<"p0", "b">>, <<"p0", "a", "b">>}
+SigPool_seq == <<<<"p0">>, <<"p0", "a">>, <<"p0", "b">>, <<"p0", "a", "b">>>>
+KW(n, v) == [n |-> n, v |-> v]
+CallPool == {[pos |-> <<>>, kw |-> <<>>], [pos |-> <<1>>, kw |-> <<>>], [pos |-> <<>>, kw |-> <<KW("a", 5)>>],
+             [pos |-> <<1>>, kw |-> <<KW("a", 5), KW("b", 10)>>], [pos |-> <<>>, kw |-> <<KW("p0", 2), KW("b", 10)>>],
+             [pos |-> <<1>>, kw |-> <<KW("zz", 9)>>], [pos |-> <<>>, kw |-> <<KW("a", 5), KW("zz", 9)>>],
+             [pos |-> <<>>, kw |-> <<KW("p0", 1)>>], [pos |-> <<2>>, kw |-> <<KW("b", 3)>>]}
+\* templates: how many base functions take part and how the composite is nested
+Templates == {<<"un", 1>>, <<"bin", 2>>, <<"rbin", 1>>, <<"nar", 3>>, <<"nar1", 2>>, <<"nar2", 2>>, <<"un-bin", 2>>,
+              <<"bin-un", 2>>, <<"nar-comp", 4>>, <<"bin-nar", 3>>, <<"nar-nar", 3>>}
+CallSets == {<<[pos |-> <<>>, kw |-> <<>>], [pos |-> <<1>>, kw |-> <<>>], [pos |-> <<>>, kw |-> <<KW("a", 5)>>],
+               [pos |-> <<1>>, kw |-> <<KW("a", 5), KW("b", 10)>>]>>,
+             <<[pos |-> <<>>, kw |-> <<KW("p0", 2), KW("b", 10)>>], [pos |-> <<1>>, kw |-> <<KW("zz", 9)>>],
+               [pos |-> <<>>, kw |-> <<KW("a", 5), KW("zz", 9)>>], [pos |-> <<>>, kw |-> <<KW("p0", 1)>>]>>,
+             <<[pos |-> <<2>>, kw |-> <<KW("b", 3)>>], [pos |-> <<>>, kw |-> <<KW("a", 5)>>],
+               [pos |-> <<1>>, kw |-> <<KW("a", 5), KW("b", 10)>>], [pos |-> <<1>>, kw |-> <<>>]>>}
+PickCall == /\ phase = "start"
+            /\ \E t \in Templates : \E sg \in [1..t[2] -> SigPool], cs \in CallSets :
+                 /\ \A k \in 3..t[2] : sg[k] \in {<<"p0", "a">>, <<"p0", "a", "b">>}
+                 /\ args' = <<t[1], sg, cs>> /\ phase' = "call" /\ UNCHANGED <<ca, cb, ka, kb>>
 PickKernel == /\ phase = "start"
               /\ \E x \in Window, lo \in Window, hi \in Window, q \in Quanta :
                    /\ lo <= hi
                    /\ args' = <<x, lo, hi, q>> /\ phase' = "kernel" /\ UNCHANGED <<ca, cb, ka, kb>>
-Next == PickList \/ PickFn \/ PickStream \/ PickScalar \/ PickSame \/ PickLazy \/ PickKernel
+Next == PickList \/ PickFn \/ PickStream \/ PickScalar \/ PickSame \/ PickLazy \/ PickCall \/ PickKernel
 Spec == Init /\ [][Next]_vars
 
 \* the prescribed result, flattened, as the observation
@@ -484,6 +543,30 @@ LazyConserves == (phase = "lazy" /\ ~args[4]) =>
 \* through a generator nothing follows an element that raised but the end
 LazyGeneratorDies == (phase = "lazy" /\ args[3] /\ args[2] # "inter") =>
     \A i \in 1..(Len(LExp) - 1) : (LExp[i].c = <<>> /\ LExp[i].v.x = 1) => i = Len(LExp) - 1
+\* (d) call shapes, with functions whose value IS what they bind (free functions) and the free kernel
+CSigs == args[2]
+CCalls == args[3]
+FreeLeaves == [k \in 1..Len(CSigs) |-> [c \in 1..Len(CCalls) |-> [x |-> 0, s |-> Binding(CSigs[k], CCalls[c])]]]
+FreeCallTab == LET nb == Len(CSigs)
+                   nc == Len(CCalls)
+                   d == [k \in 1..nb |-> nc] IN
+               [f \in 1..Prod(d, 1) |-> [x |-> 0, s |-> [k \in 1..nb |-> Binding(CSigs[k], CCalls[Unflat(f - 1, d, 1)[k]])]]]
+CallPrescribed == [c \in 1..Len(CCalls) |-> [x |-> 0, s |-> [k \in 1..Len(CSigs) |-> Binding(CSigs[k], CCalls[c])]]]
+\* the prescribed answers are accepted; answering one call with what another call binds is rejected when they differ
+CallAccepts == (phase = "call" /\ Len(CSigs) <= 3) =>
+    LET lv == FreeLeaves
+        tb == FreeCallTab
+        pr == CallPrescribed IN
+    /\ CallWhy(CSigs, CCalls, lv, tb, pr) = "ok"
+    /\ \A c1 \in {1, 3} :
+          pr[c1] # pr[c1 + 1] => CallWhy(CSigs, CCalls, lv, tb, [pr EXCEPT ![c1] = pr[c1 + 1]]) # "ok"
+\* every call of the pool is well formed for every parameter list, a keyword no operand declares changes nothing,
+\* and binding the first parameter positionally or by name is the same
+CallPoolLaws == phase = "call" =>
+    /\ \A sg \in SigPool, c \in CallPool : CallValid(sg, c)
+    /\ \A sg \in SigPool : Binding(sg, [pos |-> <<1>>, kw |-> <<KW("zz", 9)>>]) = Binding(sg, [pos |-> <<1>>, kw |-> <<>>])
+    /\ \A sg \in SigPool : Binding(sg, [pos |-> <<1>>, kw |-> <<>>]) = Binding(sg, [pos |-> <<>>, kw |-> <<KW("p0", 1)>>])
+    /\ {CallShape(SigPool_seq, c) : c \in CallPool} = {"none", "pos", "kw", "mixed", "extra"}
 \* (b) reference kernels satisfy the laws on the lattice window
 KernelLaws ==
     phase = "kernel" =>
